@@ -441,7 +441,9 @@ impl Scenario for In {
                     }
                 }
                 if let T::PubRel(id) = self.cfg.alphabet[i] {
-                    if id != 0 && !self.pubrel_meaningful(id) {
+                    // (C16 sends any packet with any identifier, also a PUBREL that names an id held by a QoS 1 publish
+                    // or a SUBSCRIBE that is still being handled - seeded change C16_r8 panicked on exactly that)
+                    if id != 0 && self.cfg.judge & J_C16 == 0 && !self.pubrel_meaningful(id) {
                         continue;
                     }
                 }
